@@ -11,6 +11,7 @@ CONSTANTS
   ShrinkFrom = 1000000
   AppendOnly = FALSE
   Persist = FALSE
+  WithTree = TRUE
   EmitDepth = 0
   FanFrom = 0
 VIEW View
